@@ -10,27 +10,75 @@ removes nothing).  Consequences, all one finding:
       Search(ghost value) reports true, and a Pop that removes the only real
       element returns the ghost (which is again "the element below the top").
 
+The exact behaviour is the machine `lsd_step` of coq/theories/C06_Model.v (proved
+equal to the transcription of the code for ALL histories: C06_lstack_partial).
+This file re-implements that machine and the reference LIFO in a few lines.
+
 The matcher is true for a case iff
-  1. the implementation is the LINKED stack (cfg word = 1), and
-  2. walking the case's operations (the end-of-case Size / pop-all / Size, Pop,
-     Size, Peek included) next to a reference LIFO, the FIRST observable that
-     differs from the LIFO's is
-       - the value of a Pop executed on a non-empty stack, and it is exactly the
-         element below the top (the ghost if nothing real is below and a ghost
-         exists, else the zero value), or
-       - the value of a Peek on the empty stack while a ghost exists, and it is
-         the ghost's value, or
-       - the result of Search(x) while a ghost exists, x == ghost value, the LIFO
-         says false and the observation says true.
+  1. the implementation is the LINKED stack (cfg word = 1), the input is a
+     well-formed operation list, and
+  2. the WHOLE observation (every operation, then the end-of-case Size / pop-all
+     / Size, Pop, Size, Peek) is exactly what the defect machine produces — so
+     every deviation from the LIFO in the case, not only the first one, is the
+     Pop value / the ghost of the never-removed last node — and
+  3. it differs from what the LIFO produces (there is something to attribute).
 Everything else — any deviation of the slice-backed stack, a wrong Size, a
-Pop/Peek/Search deviation of another shape, a panic marker, a malformed
-observation — is NOT matched and is reported as a VIOLATION.  (./check consults
-matchers only for cases whose observation equals the model's; a change of the
-defective behaviour to a different wrong answer is a model mismatch and is
-reported regardless of this matcher.)"""
+Pop/Peek/Search answer of another shape anywhere in the case, a panic marker, a
+malformed or truncated observation — is NOT matched and is reported as a
+VIOLATION.  (./check additionally consults matchers only for cases whose
+observation equals the Coq model's.)"""
 
 PUSH, POP, PEEK, SEARCH, SIZE = 1, 2, 3, 4, 5
 CAP = 4096
+
+
+def _observe(t, ops, defect):
+    """observation of the reference LIFO (defect=False) or of the LIFO with the
+    known defect (defect=True) started at [t]; top of the stack = end of the list"""
+    stack = [t]
+    ghost = None                          # value of the node a last-element Pop left behind
+    out = []
+
+    def step(op, arg):
+        nonlocal ghost
+        if op == PUSH:
+            stack.append(arg)
+        elif op == POP:
+            if not stack:
+                out.append(0)
+                return
+            x = stack.pop()
+            if not defect:
+                out.append(x)
+            elif stack:
+                out.append(stack[-1])     # the element below the top
+            elif ghost is not None:
+                out.append(ghost)
+            else:
+                out.append(0)
+                ghost = x                 # the last node stays behind
+        elif op == PEEK:
+            if stack:
+                out.append(stack[-1])
+            else:
+                out.append(ghost if (defect and ghost is not None) else 0)
+        elif op == SEARCH:
+            found = arg in stack or (defect and ghost is not None and arg == ghost)
+            out.append(1 if found else 0)
+        elif op == SIZE:
+            out.append(len(stack))
+        else:
+            raise ValueError(op)
+
+    for op, arg in ops:
+        step(op, arg)
+    n = len(stack)
+    step(SIZE, 0)
+    for _ in range(min(n, CAP)):
+        step(POP, 0)
+    for op in (SIZE, POP, SIZE, PEEK):
+        step(op, 0)
+    return out
 
 
 def c06_lstack_pop(inp, obs):
@@ -41,74 +89,13 @@ def c06_lstack_pop(inp, obs):
     if len(rest) % 2:
         return False
     ops = [(rest[i], rest[i + 1]) for i in range(0, len(rest), 2)]
-    stack = [t]                           # reference LIFO, top at the end
-    ghost = None                          # value of the node a last-element Pop left behind
-    pos = 0
-
-    def take():
-        nonlocal pos
-        if pos >= len(obs):
-            raise IndexError
-        v = obs[pos]
-        pos += 1
-        return v
-
-    def step(op, arg):
-        """returns None if the observable equals the LIFO's, else True/False =
-        'this first deviation is the known finding'"""
-        nonlocal ghost
-        if op == PUSH:
-            stack.append(arg)
-            return None
-        if op == POP:
-            got = take()
-            if not stack:
-                return None if got == 0 else False
-            want = stack.pop()
-            if len(stack) >= 1:
-                below = stack[-1]
-            elif ghost is not None:
-                below = ghost
-            else:
-                below = 0
-                ghost = want              # the last node stays behind
-            if got == want:
-                return None
-            return got == below
-        if op == PEEK:
-            got = take()
-            want = stack[-1] if stack else 0
-            if got == want:
-                return None
-            return (not stack) and ghost is not None and got == ghost
-        if op == SEARCH:
-            got = take()
-            want = 1 if arg in stack else 0
-            if got == want:
-                return None
-            return ghost is not None and arg == ghost and want == 0 and got == 1
-        if op == SIZE:
-            got = take()
-            return None if got == len(stack) else False
-        return False
-
     try:
-        for op, arg in ops:
-            r = step(op, arg)
-            if r is not None:
-                return r
-        n = obs[pos] if pos < len(obs) else None
-        r = step(SIZE, 0)
-        if r is not None:
-            return r
-        tail = [(POP, 0)] * max(0, min(n, CAP)) + [(SIZE, 0), (POP, 0), (SIZE, 0), (PEEK, 0)]
-        for op, arg in tail:
-            r = step(op, arg)
-            if r is not None:
-                return r
-    except IndexError:
-        return False
-    return False                          # no deviation from the LIFO (or trailing garbage): not ours
+        with_defect = _observe(t, ops, True)
+        lifo = _observe(t, ops, False)
+    except ValueError:
+        return False                      # unknown operation code
+    obs = list(obs)
+    return obs == with_defect and obs != lifo
 
 
 MATCHERS = {"c06_lstack_pop": c06_lstack_pop}
